@@ -472,19 +472,129 @@ func (p *Prog) DischargeIndexSlice(o PCO) (bool, string) {
 			case isC && haveLB && k <= lb:
 				why = "constant bound within tested length"
 			default:
-				// b is len(x)-c?  or x[:len(y)] … not recognised
-				okAll = false
+				// a variable bound with a dominating upper-bound test that keeps it within the static length
+				_, hi, _, haveHi := p.valueBounds(f, x, b, 0)
+				if haveHi && haveN && hi <= n {
+					why = "variable bound with a dominating upper-bound test within the static length"
+				} else {
+					okAll = false
+				}
+			}
+		}
+		// constant low bound against a variable high bound: needs low ≤ lower bound of high
+		if okAll && x.Low != nil && x.High != nil {
+			if _, isC := constIntOf(f, x.High); !isC {
+				lo, _ := constIntOf(f, x.Low)
+				hlo, _, haveLo, _ := p.valueBounds(f, x, x.High, 0)
+				if !haveLo || hlo < lo {
+					okAll = false
+				}
 			}
 		}
 		// low ≤ high for constants
 		if okAll && x.Low != nil && x.High != nil {
-			lo, _ := constIntOf(f, x.Low)
-			hi, _ := constIntOf(f, x.High)
-			if lo > hi {
+			lo, c1 := constIntOf(f, x.Low)
+			hi, c2 := constIntOf(f, x.High)
+			if c1 && c2 && lo > hi {
 				okAll = false
 			}
 		}
 		return okAll, why
 	}
 	return false, ""
+}
+
+// boundsOn derives integer bounds on expression e at node n from comparison facts `e OP const`.
+func BoundsOn(f *Fn, n ast.Node, e ast.Expr) (lo, hi int64, haveLo, haveHi bool) {
+	for _, ft := range FactsAt(f, n) {
+		be, ok := ft.Expr.(*ast.BinaryExpr)
+		if !ok {
+			continue
+		}
+		x, y, op := be.X, be.Y, be.Op
+		kv := ConstOf(f.Pkg, y)
+		if kv == nil {
+			// const OP e
+			kv = ConstOf(f.Pkg, x)
+			if kv == nil {
+				continue
+			}
+			x, y = y, x
+			switch op {
+			case token.LSS:
+				op = token.GTR
+			case token.GTR:
+				op = token.LSS
+			case token.LEQ:
+				op = token.GEQ
+			case token.GEQ:
+				op = token.LEQ
+			}
+		}
+		if !SameExpr(f.Pkg, x, e) {
+			continue
+		}
+		k, _ := constant.Int64Val(kv)
+		if !ft.Truth {
+			switch op {
+			case token.LSS:
+				op = token.GEQ
+			case token.LEQ:
+				op = token.GTR
+			case token.GTR:
+				op = token.LEQ
+			case token.GEQ:
+				op = token.LSS
+			default:
+				continue
+			}
+		}
+		switch op {
+		case token.LSS:
+			if !haveHi || k-1 < hi {
+				hi, haveHi = k-1, true
+			}
+		case token.LEQ:
+			if !haveHi || k < hi {
+				hi, haveHi = k, true
+			}
+		case token.GTR:
+			if !haveLo || k+1 > lo {
+				lo, haveLo = k+1, true
+			}
+		case token.GEQ:
+			if !haveLo || k > lo {
+				lo, haveLo = k, true
+			}
+		}
+	}
+	return
+}
+
+// valueBounds derives bounds of e at node n from dominating comparisons, following single-definition locals.
+func (p *Prog) valueBounds(f *Fn, n ast.Node, e ast.Expr, depth int) (lo, hi int64, haveLo, haveHi bool) {
+	if k, ok := constIntOf(f, e); ok {
+		return k, k, true, true
+	}
+	if depth > 4 {
+		return
+	}
+	lo, hi, haveLo, haveHi = BoundsOn(f, n, e)
+	if haveLo && haveHi {
+		return
+	}
+	if id, ok := Unparen(e).(*ast.Ident); ok {
+		if obj := ObjOf(f.Pkg, id); obj != nil {
+			if defs := DefsOf(f, obj); len(defs) == 1 {
+				l2, h2, a, b := p.valueBounds(f, n, defs[0], depth+1)
+				if !haveLo && a {
+					lo, haveLo = l2, true
+				}
+				if !haveHi && b {
+					hi, haveHi = h2, true
+				}
+			}
+		}
+	}
+	return
 }
